@@ -99,6 +99,7 @@ class C10(Check):
             idx = [i for i, l in enumerate(f[1]) if l[0] in ("Endif", "If")]
             if idx:
                 del f[1][rng.choice(idx)]
+                f[1][:] = normalise(f[1])     # adjacent code lines are one node
         return [kind, files, cfg, rng.randrange(1 << 30), pats[:k], pats[k:]]
 
     def generate(self):
@@ -301,8 +302,49 @@ class C10(Check):
                         break
         return [kind, files, cfg, seed, xs, ts]
 
+    # ---- S's reading of the patterns versus git check-ignore ----
+    def self_tests(self):
+        import shutil
+        import subprocess
+        if shutil.which("git") is None:
+            return []
+        n = 40 if self.tier == "quick" else 400
+        bad = []
+        self.oracle_cases = 0
+        base = common.scratch() / "c10git"
+        for _ in range(n):
+            case = self.gen_case("lib")
+            kind, files, cfg, seed, xs, ts = case
+            inroot = [p for p, _ in files if under_root(p)]
+            if not inroot:
+                continue
+            if base.exists():
+                shutil.rmtree(base)
+            root = base / "r"
+            U.materialise(files, base, EXTRA_DIRS)
+            env = {"PATH": "/usr/bin:/bin:/usr/local/bin", "HOME": str(base), "GIT_CONFIG_NOSYSTEM": "1"}
+            subprocess.run(["git", "init", "-q", str(root)], env=env, capture_output=True)
+            (root / ".git" / "info").mkdir(parents=True, exist_ok=True)
+            (root / ".git" / "info" / "exclude").write_text("\n".join(U.render_pat(p) for p in xs + ts) + "\n")
+            rels = ["/".join(p[1:]) for p in inroot]
+            pr = subprocess.run(["git", "-C", str(root), "check-ignore", "--no-index", "--stdin"], input="\n".join(rels) + "\n",
+                                env=env, capture_output=True, text=True)
+            if pr.returncode not in (0, 1):
+                continue
+            ignored = set(pr.stdout.split())
+            mem = U.member_py(ROOT, xs + ts)
+            self.oracle_cases += 1
+            for p, rel in zip(inroot, rels):
+                if mem(p) != (rel not in ignored):
+                    bad.append({"patterns": [U.render_pat(q) for q in xs + ts], "file": rel, "git_ignores": rel in ignored})
+        self.oracle_bad = len(bad)
+        if bad:
+            return [f"S's reading of the exclude patterns disagrees with git check-ignore on {len(bad)} files: {bad[0]}"]
+        return []
+
     def extra_coverage(self):
-        return {"input_distribution": self.dist}
+        return {"input_distribution": self.dist, "spec_oracle_cases": getattr(self, "oracle_cases", 0),
+                "spec_oracle_disagreements": getattr(self, "oracle_bad", 0)}
 
 
 CHECK = C10
